@@ -1,6 +1,7 @@
 package c18
 
 import (
+	"errors"
 	"fmt"
 	"os"
 	"testing"
@@ -10,17 +11,30 @@ import (
 	"verifharness/vk"
 )
 
+// failure of a history: full names the crash point and the observation; stable
+// is the part that is the same on every re-run of the same history (the crash
+// point and file where a violation shows first can depend on map order).
+type failure struct{ full, stable string }
+
 // checkHistory runs h once without a crash (which also yields the hook points
 // of every Write) and then once for every crash point (write index x hook
 // point ordinal) - the complete crash-point dimension of h. It returns the
 // first violation, written out with the whole case.
-func checkHistory(h history, sec *vk.Section) error {
-	fail := func(c crashAt, name string, v error) error {
+func checkHistory(h history, sec *vk.Section) *failure {
+	fail := func(c crashAt, name string, v error) *failure {
 		at := c.String()
 		if name != "" {
 			at += " (" + name + ")"
 		}
-		return fmt.Errorf("C18 dir.Write crash consistency violated: %v\ncase: %s crash=%s", v, h, at)
+		kind := "harness"
+		var vv *violation
+		if errors.As(v, &vv) {
+			kind = vv.kind
+		}
+		return &failure{
+			full:   fmt.Sprintf("C18 dir.Write crash consistency violated: %v\ncase: %s crash=%s", v, h, at),
+			stable: fmt.Sprintf("C18 dir.Write crash consistency violated (%s)\ncase: %s", kind, h),
+		}
 	}
 	harness := func(c crashAt, e error) {
 		// not a verdict on dir.Write: scratch directory trouble
@@ -126,8 +140,9 @@ func TestCrashHistories(t *testing.T) {
 	sec := vk.Sec("CrashHistories")
 	vk.Check(t, 300, 20000, func(rt *rapid.T) {
 		h := genHistory(rt)
-		if err := checkHistory(h, sec); err != nil {
-			rt.Fatalf("%v", err)
+		if f := checkHistory(h, sec); f != nil {
+			rt.Logf("%s", f.full)
+			rt.Fatalf("%s", f.stable)
 		}
 	})
 }
@@ -170,8 +185,8 @@ func TestCrashSweep(t *testing.T) {
 					continue
 				}
 				h := history{Nested: nested, Writes: ws, Recov: rv, Crash2: -1, Disk: !nested}
-				if err := checkHistory(h, sec); err != nil {
-					t.Fatalf("%v", err)
+				if f := checkHistory(h, sec); f != nil {
+					t.Fatalf("%s", f.full)
 				}
 			}
 		}
@@ -193,8 +208,8 @@ func TestCrashTwiceSweep(t *testing.T) {
 					continue
 				}
 				h := history{Writes: ws, Recov: []wset{rv}, Crash2: k2, Recov2: smallSets[2]}
-				if err := checkHistory(h, sec); err != nil {
-					t.Fatalf("%v", err)
+				if f := checkHistory(h, sec); f != nil {
+					t.Fatalf("%s", f.full)
 				}
 			}
 		}
